@@ -319,7 +319,7 @@ _poll_add_(struct qb_loop *l,
 		*pe_pt = pe;
 		return 0;
 	} else {
-		pe->state = QB_POLL_ENTRY_EMPTY;
+		_poll_entry_empty_(pe);
 		return res;
 	}
 }
